@@ -1,0 +1,32 @@
+//go:build verif
+// +build verif
+
+package bal_slb
+
+// Hooks for the out-of-tree verification harness of property C01 (build tag verif). Add-only.
+
+// VerifC01Dump returns, in list order and under the BalanceRR lock, AddrInfo, weight and current
+// of every BackendRR.
+func (brr *BalanceRR) VerifC01Dump() (addr []string, weight []int, current []int) {
+	brr.Lock()
+	defer brr.Unlock()
+	for _, b := range brr.backends {
+		addr = append(addr, b.backend.AddrInfo)
+		weight = append(weight, b.weight)
+		current = append(current, b.current)
+	}
+	return
+}
+
+// VerifC01SetAvail calls SetAvail on the backend with the given AddrInfo; false if there is none.
+func (brr *BalanceRR) VerifC01SetAvail(addrInfo string, avail bool) bool {
+	brr.Lock()
+	defer brr.Unlock()
+	for _, b := range brr.backends {
+		if b.backend.AddrInfo == addrInfo {
+			b.backend.SetAvail(avail)
+			return true
+		}
+	}
+	return false
+}
